@@ -12,7 +12,8 @@ import (
 
 // C02 has two kinds of plan: direct import histories (chainsim.Plan) and
 // full-stack networks (netsim.FullPlan: whole nodes joined by the real p2p and
-// sub-protocol stack, with mining, partitions and heals).
+// sub-protocol stack, with mining, partitions and heals), and miner histories in which
+// the write of a freshly mined block overlaps the import of a competing block.
 func TestC02(t *testing.T) {
 	imp := chainsim.ExecChain("C02")
 	meta := map[string]any{}
@@ -24,6 +25,7 @@ func TestC02(t *testing.T) {
 		comps[k] = v
 	}
 	comps["full-stack cases: p2p.Server (RLPx), aqua.ProtocolManager (status handshake, block/tx broadcast, fetcher, downloader), core.TxPool, opt/miner"] = "real, 2-4 whole nodes per case joined by in-memory connections; the simulator owns links (partition/heal), the clock, who finds a block when (gated Seal) and client submissions"
+	comps["mined-versus-imported cases: opt/miner worker, core.TxPool, BlockChain.WriteBlockWithState / InsertChain"] = "real; the simulator parks the mined block's write at a guarded yield point in front of the chain mutex while a competing block of the same height is imported, then releases it"
 	meta["components"] = comps
 	kernel.Run(t, &kernel.Spec{
 		Prop: "C02", Engine: "chainsim+netsim",
@@ -31,11 +33,17 @@ func TestC02(t *testing.T) {
 			if k%5 == 4 {
 				return netsim.GenFullPlan(rng, env, k)
 			}
+			if k%7 == 6 {
+				return chainsim.GenMineRacePlan(rng, env, k)
+			}
 			return chainsim.GenC02(rng, env, k)
 		},
 		Decode: func(raw json.RawMessage) (any, error) {
 			if bytes.Contains(raw, []byte(`"miners"`)) {
 				return netsim.DecodeFullPlan(raw)
+			}
+			if bytes.Contains(raw, []byte(`"steps"`)) {
+				return chainsim.DecodeMinePlan(raw)
 			}
 			return chainsim.DecodePlan(raw)
 		},
@@ -43,17 +51,26 @@ func TestC02(t *testing.T) {
 			if fp, ok := p.(*netsim.FullPlan); ok {
 				return netsim.ExecFull(t, fp, col)
 			}
+			if mp, ok := p.(*chainsim.MinePlan); ok {
+				return chainsim.ExecMine(t, mp, col)
+			}
 			return imp(t, p, col)
 		},
 		Shrink: func(p any) []any {
 			if fp, ok := p.(*netsim.FullPlan); ok {
 				return netsim.ShrinkFullPlan(fp)
 			}
+			if mp, ok := p.(*chainsim.MinePlan); ok {
+				return chainsim.ShrinkMinePlan(mp)
+			}
 			return chainsim.ShrinkPlan(p)
 		},
 		Hash: func(p any) uint64 {
 			if fp, ok := p.(*netsim.FullPlan); ok {
 				return netsim.HashFullPlan(fp)
+			}
+			if mp, ok := p.(*chainsim.MinePlan); ok {
+				return chainsim.HashMinePlan(mp)
 			}
 			return chainsim.HashPlan(p)
 		},
